@@ -1,3 +1,4 @@
 import NbdimeProofs.Lemmas.SeqAbstract
 import NbdimeProofs.Lemmas.SeqBridge
 import NbdimeProofs.Properties.C02
+import NbdimeProofs.Properties.C14
